@@ -169,7 +169,7 @@ def _chan(c, j, by_name):
     return c['names'][j] if (by_name and c['kind'].startswith('sample')) else j
 
 
-def _mask_eq(obs, data, out_full, out_short, exp_mask, what):
+def _mask_eq(obs, data, out_full, out_short, exp_mask, what, again=None):
     """gated == data[mask]; short form == full form; mask == expected predicate."""
     if not obs.claim('returns', not raised(out_full) and not raised(out_short),
                      lambda: '%s raised: %r / %r' % (what, out_full, out_short)):
@@ -191,6 +191,17 @@ def _mask_eq(obs, data, out_full, out_short, exp_mask, what):
         ref = fingerprint(data[mask])
         obs.claim('mask_eq', not fp_diff(fingerprint(g), ref) and not fp_diff(fingerprint(out_short), ref),
                   lambda: '%s: metadata of gated sample differs from data[mask]: %r' % (what, fp_diff(fingerprint(g), ref)))
+    # the returned mask is the caller's (masks of several gates are commonly combined in place): the same gate asked
+    # again afterwards on an equal sample answers as before
+    if again is not None and isinstance(out_full.mask, np.ndarray) and out_full.mask.flags.writeable and mask.size:
+        mask = mask.copy()
+        kept = base[mask].copy()
+        out_full.mask[...] = ~mask
+        re = again()
+        okr = not raised(re) and np.asarray(re.mask).shape == mask.shape and bool(np.array_equal(np.asarray(re.mask), mask)) and \
+            np.asarray(re.gated_data).shape == kept.shape and bool(np.array_equal(np.asarray(re.gated_data), kept, equal_nan=base.dtype.kind == 'f'))
+        obs.claim('mask_is_predicate', okr, lambda: '%s: asked again after the caller inverted the returned mask in place, the gate answers %r (before: %r)' % (
+            what, re if raised(re) else np.asarray(re.mask).astype(int).tolist(), mask.astype(int).tolist()))
 
 
 def check(case, obs):
@@ -228,7 +239,8 @@ def _check(case, obs, gate, arm, c, data, ranges, cells, N):
             obs.claim('refuse', raised(full) and raised(short), lambda: 'dropping %d+%d of %d events accepted' % (s, e, N))
             return
         exp = [s0 <= i < N - e0 for i in range(N)]
-        _mask_eq(obs, data, full, short, exp, 'start_end(%d,%d) on %d events' % (s, e, N))
+        _mask_eq(obs, data, full, short, exp, 'start_end(%d,%d) on %d events' % (s, e, N),
+                 again=lambda: call(gate.start_end, data.copy(), num_start=s, num_end=e, full_output=True))
     elif arm == 'high_low':
         sel, form = case['sel'], case['form']
         if form == 'none':
@@ -260,7 +272,8 @@ def _check(case, obs, gate, arm, c, data, ranges, cells, N):
         obs.label('form:' + form, 'low_default' if lo is None else 'low_given', 'high_default' if hi is None else 'high_given')
         full = call(gate.high_low, data, channels=ch, full_output=True, **kw)
         short = call(gate.high_low, data, channels=ch, **kw)
-        _mask_eq(obs, data, full, short, exp, 'high_low(channels=%r, %r)' % (ch, kw))
+        _mask_eq(obs, data, full, short, exp, 'high_low(channels=%r, %r)' % (ch, kw),
+                 again=lambda: call(gate.high_low, data.copy(), channels=ch, full_output=True, **kw))
     else:
         sel = case['sel']
         ch = [_chan(c, j, sp) for j, sp in zip(sel, case['spell'])]
@@ -305,7 +318,8 @@ def _check(case, obs, gate, arm, c, data, ranges, cells, N):
             exp_mask.append(bool(mask[i]))
         obs.nontrivial = boundary or (log and any(r[sel[0]] <= 0 or r[sel[1]] <= 0 for r in cells))
         obs.label('log' if log else 'linear', 'exact_boundary' if boundary else 'no_boundary_point')
-        _mask_eq(obs, data, full, short, exp_mask, 'ellipse')
+        _mask_eq(obs, data, full, short, exp_mask, 'ellipse',
+                 again=lambda: call(gate.ellipse, data.copy(), ch, center=list(center_arg), a=a, b=b, theta=th, log=log, full_output=True))
         cont = full.contour
         okc = isinstance(cont, list) and len(cont) == 1 and np.asarray(cont[0]).ndim == 2 and np.asarray(cont[0]).shape[1] == 2
         if not obs.claim('contour', okc, lambda: 'contour container %r' % (type(cont),)):
